@@ -489,6 +489,14 @@ fn run(ctx: &mut Ctx) {
     }
     for i in 0..SHAPES.len() {
         ctx.case(|| json!({"space":"parameter-shapes","shape":SHAPES[i].0}), |ctx| check_generated(ctx, &format!("shape:{}", SHAPES[i].0), &shape_contract(i), Some((2, 0, 0))));
+        if tier == Tier::Thorough {
+            // the same shapes as constructor and l1_handler parameters (their wrappers deserialize differently:
+            // the handler's first parameter is the sender address)
+            let (_, params, ret) = SHAPES[i];
+            let sep = if params.is_empty() { "" } else { ", " };
+            let src = format!("#[starknet::contract]\nmod c {{\n    #[storage]\n    struct Storage {{}}\n    #[constructor]\n    fn constructor(ref self: ContractState{sep}{params}) {{ let _r = {ret}; }}\n    #[l1_handler]\n    fn handle(ref self: ContractState, from_address: felt252{sep}{params}) {{ let _r = {ret}; }}\n    #[external(v0)]\n    fn e(ref self: ContractState{sep}{params}) -> felt252 {{ let _r = {ret}; 1 }}\n}}\n");
+            ctx.case(|| json!({"space":"parameter-shapes-ctor-l1","shape":SHAPES[i].0}), |ctx| check_generated(ctx, &format!("shape-ctor-l1:{}", SHAPES[i].0), &src, Some((1, 1, 1))));
+        }
     }
 }
 
@@ -498,7 +506,7 @@ fn _v(_: Value) {}
 pub static C19: CheckDef = CheckDef {
     id: "C19",
     level: "exploration",
-    rule: "Enumerated: (1) every *.contract_class.json under crates/cairo-lang-starknet/test_data; (2) every contract of cairo_level_tests/ and test_data/ compiled in-process (compared with the compiler's own in-memory Sierra for that contract); (3) generated contracts: entry-point subsets of a 6-function menu using different builtins (none, pedersen, poseidon, bitwise, ec_op, dict+storage) x constructor {y,n} x l1_handler {y,n} (quick: subsets of size <=1 and the full set; thorough: all 64 x 4); (4) a length ladder: one external function appending k constants, k < 8 (thorough 70), so the felt-serialized program takes every length residue of the vector compression (observed residues mod 31 are listed in observed_outcomes); (5) 14 parameter / return shapes (none, felt, ints, u256, bool, arrays, spans, tuples, options, ByteArray, 8 parameters, addresses, nested arrays) each as a mutable and a view entry point; each x {pythonic hints on/off} x max_bytecode_size {exact, exact-1, 0}. Oracle on CasmContractClass::from_contract_class(extract(class)): bytecode == direct compile of the extracted program == direct compile of the compiler's in-memory program; extracted Sierra == in-memory Sierra; every entry offset == start of the function's entry statement and an instruction start; builtins == the function's builtin parameters, in protocol order (independent table); entry points strictly sorted by selector; every word < P; hint offsets are instruction starts, increasing; segment lengths sum to the bytecode length and cut at function starts; compiled class hashes and the class itself stable under JSON round trips; size limit exact passes / exact-1 is a clean error, never a panic.",
+    rule: "Enumerated: (1) every *.contract_class.json under crates/cairo-lang-starknet/test_data; (2) every contract of cairo_level_tests/ and test_data/ compiled in-process (compared with the compiler's own in-memory Sierra for that contract); (3) generated contracts: entry-point subsets of a 6-function menu using different builtins (none, pedersen, poseidon, bitwise, ec_op, dict+storage) x constructor {y,n} x l1_handler {y,n} (quick: subsets of size <=1 and the full set; thorough: all 64 x 4); (4) a length ladder: one external function appending k constants, k < 8 (thorough 70), so the felt-serialized program takes every length residue of the vector compression (observed residues mod 31 are listed in observed_outcomes); (5) 14 parameter / return shapes (none, felt, ints, u256, bool, arrays, spans, tuples, options, ByteArray, 8 parameters, addresses, nested arrays) each as a mutable and a view entry point (thorough: also as constructor and l1_handler parameters); each x {pythonic hints on/off} x max_bytecode_size {exact, exact-1, 0}. Oracle on CasmContractClass::from_contract_class(extract(class)): bytecode == direct compile of the extracted program == direct compile of the compiler's in-memory program; extracted Sierra == in-memory Sierra; every entry offset == start of the function's entry statement and an instruction start; builtins == the function's builtin parameters, in protocol order (independent table); entry points strictly sorted by selector; every word < P; hint offsets are instruction starts, increasing; segment lengths sum to the bytecode length and cut at function starts; compiled class hashes and the class itself stable under JSON round trips; size limit exact passes / exact-1 is a clean error, never a panic.",
     assumptions: &["the protocol builtin order is the Starknet OS order pedersen, range_check, bitwise, ec_op, poseidon, segment_arena, range_check96, add_mod, mul_mod"],
     run,
     stack_mb: 32,
